@@ -53,7 +53,29 @@ CHECKS.update({
                 note='operator kinds are enumerated per query (a symbolic kind gives no verdict), token positions are symbolic; statements/declarations/whole classes are outside (parse() on `class A { }` gives no verdict in 300 s). Found and fixed: @quantum on class members (fcaace1).',
                 ref='DESIGN.md §2 C14', tech=TECH_SAT),
 })
-NA = {}
+CHECKS.update({
+    'C07': dict(text='Real RuntimeEvaluator::eval on one BinaryExpression over two variables whose VALUES are symbolic over the full 32/64-bit range: result type (int->long->float promotion, / always float, % integer) '
+                     'and value against a reference written from docs/language/language-guide.md, zero divisor = located Runtime error.',
+                note='operator, operand types and (for / %) the divisor constant are enumerated per query; float results are havoc (only tags/zero tests/comparisons checked); statements, control flow, calls, casts, strings, arrays, echo text not encoded.',
+                ref='DESIGN.md §2 C07', tech=TECH_SAT),
+    'C09': dict(text='Real callMethod -> exec -> eval -> lookup/assign on a hand-built method body: a bare name must use the receiver\'s field whatever the caller\'s locals are called (renaming the caller\'s local w -> v changes nothing); values symbolic.',
+                note='one caller scope, one field; colliding/non-colliding name and read/write enumerated. On the pinned tree the colliding cases FAIL: recorded as known finding C09-caller-local-shadows-field (repair not small).',
+                ref='DESIGN.md §2 C09, §5', tech=TECH_SAT),
+    'C12': dict(text='CBMC built-in checks (division by zero, MIN/-1 on sdiv/srem, invalid/freed/out-of-bounds dereference) and "only a located Runtime BlochError may escape" over the real eval() of one binary expression with full-range symbolic operands and divisors {0,1,-1,2,7,MIN,MAX}.',
+                note='expression kernel only: literal conversion, vtable construction, teardown after error, indices, null references are NOT encoded. Found and fixed: INT64_MIN % -1L SIGFPE (bbb974b).',
+                ref='DESIGN.md §2 C12', tech=TECH_SAT),
+    'C17': dict(text='One endScope() step of the real evaluator from arbitrary prior counts and arbitrary last-measurement records: a tracked qubit contributes exactly one outcome (last measurement or ?), an untracked one nothing, other keys untouched.',
+                note='qubit[] entries are in the thorough tier only and may be inconclusive (900 s); CLI shot loop, @shots precedence, probabilities, echo policy (cli.cpp) and tracked object fields are outside.',
+                ref='DESIGN.md §2 C17', tech=TECH_SAT),
+})
+NA = {
+    'C08': 'needs buildClassTable/instantiateGeneric on whole class hierarchies plus analyser overload resolution; parse() of `class A { }` and exec of a single statement do not get through CBMC (300-900 s, 30 GB): out of reach at the depth the property quantifies over',
+    'C10': 'needs the semantic analyser TU on two-declaration programs and buildClassTable; not encodable within the measured limits (see DESIGN.md §3)',
+    'C11': 'needs exec/eval of call and new expressions with collections triggered at symbolic statement boundaries; exec of a single statement gives no verdict (900 s, 30 GB); the data-race clause needs a thread model CBMC does not get from this translation',
+    'C16': 'needs the semantic analyser TU (68k IR lines, visitor double dispatch over whole programs); not encodable within the measured limits',
+    'C18': 'needs two complete execute() runs of a parsed program inside one query; a single statement already exceeds the budget',
+    'C19': 'import resolution is std::filesystem + ifstream around a DFS: needs a symbolic file system and a model of filesystem::path, neither within reach of the IR->C/CBMC route',
+}
 def main():
     props = [json.loads(l) for l in open(os.path.join(here, 'properties.jsonl'))]
     checks = []
@@ -75,7 +97,7 @@ def main():
     na = []
     for p in props:
         if p['id'] not in CHECKS:
-            na.append({'property_id': p['id'], 'reason': NA.get(p['id'], 'check not built yet in this round (see DESIGN.md build order)')})
+            na.append({'property_id': p['id'], 'reason': NA.get(p['id'], 'no check built')})
     m = {
         'version': 1,
         'setup_cmd': 'python3 -m py_compile tools/ir2c.py tools/vcheck.py && cbmc --version && cvc5 --version | head -1 && clang++-14 --version | head -1',
